@@ -14,10 +14,10 @@ class GeminiTap:
     (direct calls, __call__, DiscriminativeModel.score, fit loops, path validation scores).  `orig(gem, P, A, rg)`
     calls the unwrapped implementation, so monitors can re-invoke it without being observed themselves."""
 
-    def __init__(self, callback):
+    def __init__(self, callback, ctx=None):
         import gemclus.gemini as gg
         self.patcher = Patcher()
-        self.callback = callback
+        self.callback = ctx.guard(callback, "gemini-tap") if ctx is not None else callback
         self.originals = {}
         self.enabled = True
         for name in CONCRETE:
@@ -88,14 +88,14 @@ def direct_case(seed, prop, idx, nmax=16, kmax=6, scales=(0.1, 0.5, 1.0, 2.0, 4.
     return info, gem, P, L, A, X
 
 
-def mmd_tolerance(gem, P, A):
+def mmd_tolerance(gem, P, A, rel=1e-13):
     """Absolute tolerance for an MMD score: sqrt amplifies the round-off of a difference of kernel means of
     magnitude max|A| when the squared distance is tiny."""
     from ..refs.gemini import ref_gemini  # noqa: F401
     N, K = P.shape
     pi = P.mean(0)
     q = P / P.sum(0, keepdims=True)
-    e = 1e-13 * max(1.0, float(np.max(np.abs(A))))
+    e = rel * max(1.0, float(np.max(np.abs(A))))
     tol = 0.0
     if not gem.ovo:
         p = np.full(N, 1.0 / N)
